@@ -5,12 +5,18 @@ Proof: Lean theorems over ALL label lists of the labelled transition system in
 `startup_cleanup_activities`, the core task, the orchestrator's ensemble tasks, workers, daemons and their exit
 stoppers). Time passes only through `delay`, which is ALWAYS enabled; a run is COOPERATIVE when each of its delays
 satisfies `coopDelay` (nothing instantaneous pending, no deadline overrun) — the theorems about time say so.
-Tie (T): the facts that select the model variant (`fixed`, `coreWatched`) are re-extracted from the AST.
+The model of the current tree handles every modelled cancellation of operator() (inside spawn_tasks, while run_tasks waits,
+while it stops the root tasks — every live root task is then cancelled AGAIN —, while it waits for the hung tasks); the
+labels at which the OLD code left the model (findings C20-F8 / F10 / F11, repaired by ab6fb15 / d6da86b / 883284c) exist in
+historical variants only (`repaired_never_abandoned`), with a historical witness per finding.
+Tie (T): the facts that select the model variant are re-extracted from the AST.
 Tie (A, trace acceptance): the REAL `kopf.operator()` runs seeded lifecycle histories on the virtual-time
 loop against the fake API (`sim_c20.py`); every atomic segment of the choreography is logged in one global
-order log and the Lean driver (`C20.trace`) must accept the label trace as a COOPERATIVE run (labels and timing).
+order log and the Lean driver (`C20.trace`) must accept the label trace as a COOPERATIVE run (labels and timing),
+the WHOLE trace (no truncation on the current tree).
 Oracle: written from the property statement over the order log / request log / return of `operator()`;
-never consults the model.
+never consults the model. A deviation that is kopf's documented design is a by-design FINDING (C20-D1, C20-D3, C20-D4),
+never an exemption.
 """
 from __future__ import annotations
 
@@ -31,99 +37,163 @@ ENGINES = ["lean-model", "pyextract", "kopfsim"]
 TIE = ("T: the facts that select the model variant — the orchestrator's done-callback on its ensemble tasks cancels it and the "
        "failure is re-raised (`fixed`); APINotFoundError is passed over; terminate_redundancies restarts exited tasks; scan_resources "
        "gathers and cancels its requests; a root task (the stop-flag checker) awaits the core tasks and their errors are re-raised "
-       "after the cleanup activity (`coreWatched := true`, since /repo ed52a1a) — are re-extracted from the AST of orchestration.py / running.py / "
-       "scanning.py on every run and proved equal to the model's claims (Kopf/Tie/C20.lean); "
+       "after the cleanup activity (`coreWatched := true`, since /repo ed52a1a); the daemon killer marks the memories as exiting and "
+       "spawn_daemons honours it (since 1d3a667); the orchestrator shields the stop of its ensemble in a loop (`orchShielded := true`, "
+       "since ab6fb15); spawn_tasks stops its tasks when cancelled in its sleep(0) (`spawnSwept := true`, since d6da86b); run_tasks "
+       "handles a cancellation while it stops the root tasks (`stopSwept := true`, since 883284c); queueing.watcher re-checks "
+       "worker_error after the depletion and raises (`deplEscalates := true`, since 69d1957) — are re-extracted from the AST of "
+       "orchestration.py / running.py / scanning.py / daemons.py / queueing.py on every run and proved equal to the model's claims "
+       "(Kopf/Tie/C20.lean; Boolean equalities about variant flags, none about `step`); a revert of any of these commits makes a tie "
+       "theorem fail AND its corpus witness fail the oracle (rehearsed for 69d1957, ab6fb15, d6da86b, 883284c); "
        "A: whole-operator simulations of the real kopf.operator(); one global order log of the atomic segments of "
        "spawn_tasks/run_tasks/startup_cleanup_activities/orchestrator/watcher/worker/daemon_killer/daemons with virtual times, "
        "replayed by the Lean LTS as a COOPERATIVE run (labels AND the time that may pass between them); the exception in flight at "
-       "the beginning of a watcher's `finally:`, the outcome of every withdrawal PATCH and the cooperativity of every daemon are "
-       "observed, not inferred from how things end")
+       "the beginning of a watcher's `finally:`, the outcome of every withdrawal PATCH, the cooperativity of every daemon (did "
+       "its exit stopper see its task end, or give it up?) and where a repeated cancellation caught the startup/cleanup task are "
+       "OBSERVED in the log, not declared by the scenario; every trace is compared to its END (a truncation at orchAbandon / "
+       "spawnCancel / stopCancel can happen only in a tree without one of the repairs, where the tie theorems fail as well)")
+STRENGTH = "partial"
 LEVEL_TEXT = (
     "Lean theorems for every label list (no bound) of an LTS of the root-task choreography. Time: `delay` is always enabled; "
     "cooperativity (`coopDelay`: tasks honour cancellation at once, the timed waits E, W, D, C, H are kept) is an explicit "
-    "predicate on the run (`ReachC`). Safety over all runs: no_api_before_startup, failed_startup_no_api, ready_after_startup, "
-    "cleanup_last (roots, core, ensemble, workers and the cooperative daemons with an exit stopper are over before the cleanup "
-    "activity), reraise, no_daemon_alive_at_return, peering_withdrawal_attempted (+ withdrawal_may_fail_witness: kopf ignores a "
-    "failed withdrawal PATCH). PROGRESS: returns (after a trigger every cooperatively reachable state reaches `exited` by "
-    "internal steps alone: well-founded measure `mu`) and no_timelock (whenever cooperative time cannot pass an internal "
-    "non-delay step is enabled) — so the `rt = exited -> ...` theorems and the bounds mean 'the run call returns'. Fail-fast: "
-    "root_failure_stops_all; stream_failure_stops_all / worker_failure_stops_all (THE claims for the current tree `fixed := true`: "
-    "a failed ensemble task — or a watcher failed by its worker, which cannot be overtaken by HTTP 404 — cancels the orchestrator "
-    "at once, which can only end failed = a root failure), gone_is_not_a_failure. Bounds, for cooperative runs only: "
-    "exit_bound_partial (exit <= t0 + E + W + D + C + H from the moment run_tasks begins to stop) and "
-    "failure_to_stop_bound_partial (ghost tFail = the first escalated failure: run_tasks begins to stop within 2(E+W+D), the "
-    "operator is gone within 3(E+W+D) + C + H — the oracle's bound); noncooperative_exit_unbounded_witness shows that nothing "
-    "bounds a non-cooperative run (aiotasks.stop has no timeout). core_failure_stops_all (THE claim for the current tree "
-    "`coreWatched := true`: a failed core task fails the root task awaiting it at once, the cleanup is not skipped; "
-    "historical_core_failure_lingers_witness + historical_core_failure_skips_cleanup_witness are about the OLD code, finding "
-    "C20-F6 before /repo ed52a1a, and show that the hypothesis is needed). NOT met by the code, with a witness replayed on real "
-    "kopf: worker_failure_reaches_watcher_partial + worker_failure_during_depletion_dropped_witness (open finding C20-F5: a worker "
-    "failing while its watcher depletes is only logged). historical_stream_failure_lingers_witness is about the OLD code "
-    "(variant `fixed := false`, finding F3 before /repo 9ef1bcb) and only shows that the hypothesis `fixed` is needed. The "
-    "hand-written model is tied to the code by (T) an AST extraction of the variant-selecting facts re-proved equal on every run "
-    "and (A) trace acceptance (labels and timing) of seeded whole-operator histories. Defects met by this check and repaired in "
-    "/repo since: F3 (9ef1bcb), C20-F2 (ca0106f), C20-F4 (06bf1c1), C20-F6 (ed52a1a), C20-F7 (83aec44); their witnesses stay in the corpus and their oracle clauses "
-    "stay strict.")
+    "predicate on the run (`ReachC`). Since the repairs 69d1957 / ab6fb15 / d6da86b / 883284c the guard `abandoned = false` "
+    "('none of the findings C20-F8 / F10 / F11 has happened') is GONE from every theorem: in the model of the current tree no "
+    "such label is enabled (repaired_never_abandoned, head_never_abandoned), and the cancellation of operator() inside "
+    "spawn_tasks / while run_tasks stops the root tasks is modelled as the code handles it now (rtCancel; every live root task "
+    "is cancelled AGAIN: scCut, the killer's interrupted finally). "
+    "FULL theorems (all runs, all moments of failures / flags / handled cancellations): no_api_before_startup, "
+    "failed_startup_no_api, ready_after_startup ('startup first', 'ready only after startup'); root_failure_stops_all (once "
+    "run_tasks stops, every live root task is cancelled or in its finally; the hung phase only after all root tasks ended; the "
+    "return only after the hung tasks are gone); cleanup_last (roots, core, ensemble, workers are over before the cleanup "
+    "activity; of the daemons those whose exit stopper did not give them up; after the killer's sweep every running daemon has a "
+    "stopper) + interrupted_killer_never_meets_cleanup (a killer cut short by a repeated cancellation never coexists with the "
+    "cleanup); reraise (raises only if a root or a hung task failed, returns normally only if no root task failed; WHICH failure "
+    "is raised is unspecified); no_daemon_alive_at_return, nothing_alive_at_return (at the return every root task, ensemble "
+    "task, worker, daemon, helper is over — what C20-F10 / F11 violated; the core task is not claimed); "
+    "stream_failure_stops_all / worker_failure_stops_all / core_failure_stops_all (the fail-fast claims for the current tree: a "
+    "failed ensemble task, a watcher failed by its worker, a failed core task cancel/fail a root task at once, which can only end "
+    "failed — also when a stop request follows during the escalation); worker_failure_reaches_watcher (NO guard any more: "
+    "wherever the watcher is — streaming or already depleting — a failing worker sets worker_error and the watcher can only end "
+    "failed; hypothesis `deplEscalates`, tie-checked); no_timelock, stop_flag_felt_at_once, gone_is_not_a_failure (HTTP 404). "
+    "PARTIAL (a guard or a weaker conclusion really remains): returns_partial — a POSSIBILITY (EF): from every cooperatively "
+    "reachable triggered state SOME continuation of internal steps reaches `exited`; that every fair run returns "
+    "(inevitability) is NOT proved: it rests on no_timelock + the bounds + the oracle; exit_bound_partial (exit <= t0 + E + W + D + "
+    "C + H) and failure_to_stop_bound_partial (from the first escalated failure: run_tasks begins to stop within 2(E+W+D), the "
+    "operator is gone within 3(E+W+D) + C + H — the oracle's bound): for COOPERATIVE runs only "
+    "(noncooperative_exit_unbounded_witness, model-level, NOT replayed: a real instance is a sync handler blocking in a thread); "
+    "peering_withdrawal_attempted_partial (ATTEMPTED, not withdrawn: withdrawal_may_fail_witness, deviation C20-D3). "
+    "WITNESS about the current tree: repeated_cancel_skips_cleanup_witness (deviation C20-D4, by design, replayed: a cancellation "
+    "that arrives while operator() is already stopping skips the cleanup handlers; everything else is over before the return). "
+    "HISTORICAL witnesses (about OLD code = a variant flag false, not about the tree; their corpus witnesses are replayed on real "
+    "kopf as REGRESSIONS that must pass; they show that a variant hypothesis is needed): historical_stream_failure_lingers_witness "
+    "(F3, before 9ef1bcb), historical_core_failure_lingers_witness + historical_core_failure_skips_cleanup_witness (C20-F6, before "
+    "ed52a1a), historical_double_cancel_abandons_ensemble_witness (C20-F8, before ab6fb15), "
+    "historical_cancel_in_spawn_abandons_tasks_witness (C20-F10, before d6da86b), "
+    "historical_cancel_while_stopping_abandons_tasks_witness (C20-F11, before 883284c), "
+    "historical_worker_failure_during_depletion_dropped_witness + historical_worker_failure_after_gone_keeps_running_witness "
+    "(C20-F5, before 69d1957). "
+    "Clauses that rest on ORACLE/TIE only (no theorem): orphaned discovery requests vs the cleanup; the identity of the re-raised "
+    "exception (type name of some failure); 'daemons are stopped' for daemons and timers whose stopper gives them up (deviation "
+    "C20-D1), 'the record is withdrawn' when the PATCH fails (C20-D3) and 'cleanup handlers run' after a repeated cancellation "
+    "(C20-D4) are recorded as by-design findings, not exempted. "
+    "Defects met by this check and repaired in /repo since: F3 (9ef1bcb), C20-F2 (ca0106f), C20-F4 (06bf1c1), C20-F6 (ed52a1a), "
+    "C20-F7 (83aec44), C20-F9 (1d3a667), C20-F5 (69d1957), C20-F8 (ab6fb15), C20-F10 (d6da86b), C20-F11 (883284c); their witnesses "
+    "stay in the corpus and their oracle clauses stay strict.")
 THEOREMS = [("Kopf.Props.C20", "Kopf.C20." + n) for n in [
     "no_api_before_startup", "failed_startup_no_api", "ready_after_startup", "root_failure_stops_all",
-    "returns", "no_timelock", "cleanup_last", "reraise", "no_daemon_alive_at_return", "peering_withdrawal_attempted",
-    "withdrawal_may_fail_witness", "worker_failure_reaches_watcher_partial", "worker_failure_during_depletion_dropped_witness",
-    "worker_failure_stops_all", "exit_bound_partial", "noncooperative_exit_unbounded_witness",
-    "failure_to_stop_bound_partial", "stream_failure_stops_all", "gone_is_not_a_failure",
-    "historical_stream_failure_lingers_witness", "core_failure_stops_all", "historical_core_failure_lingers_witness",
-    "historical_core_failure_skips_cleanup_witness", "double_cancel_abandons_ensemble_witness", "shielded_never_abandoned"]]
+    "returns_partial", "no_timelock", "stop_flag_felt_at_once", "cleanup_last", "reraise",
+    "no_daemon_alive_at_return", "nothing_alive_at_return", "interrupted_killer_never_meets_cleanup",
+    "peering_withdrawal_attempted_partial", "withdrawal_may_fail_witness",
+    "worker_failure_reaches_watcher", "worker_failure_stops_all", "exit_bound_partial",
+    "noncooperative_exit_unbounded_witness", "failure_to_stop_bound_partial", "stream_failure_stops_all",
+    "gone_is_not_a_failure", "core_failure_stops_all", "repaired_never_abandoned", "head_never_abandoned",
+    "repeated_cancel_skips_cleanup_witness",
+    "historical_stream_failure_lingers_witness", "historical_core_failure_lingers_witness",
+    "historical_core_failure_skips_cleanup_witness", "historical_double_cancel_abandons_ensemble_witness",
+    "historical_cancel_in_spawn_abandons_tasks_witness", "historical_cancel_while_stopping_abandons_tasks_witness",
+    "historical_worker_failure_during_depletion_dropped_witness",
+    "historical_worker_failure_after_gone_keeps_running_witness"]]
 TIE_THEOREMS = [("Kopf.Tie.C20", "Kopf.C20.Tie." + n) for n in [
     "escalates_eq", "head_is_fixed", "ignores_not_found_eq", "restarts_exited_eq", "scan_cancels_children_eq",
-    "watches_core_eq", "head_core_variant", "shields_stop_eq", "head_shield_variant", "no_spawn_while_exiting_eq"]]
+    "watches_core_eq", "head_core_variant", "shields_stop_eq", "head_shield_variant", "sweeps_spawn_eq", "sweeps_stop_eq",
+    "head_sweep_variant", "escalates_depletion_eq", "head_depletion_variant", "head_handles_cancellations",
+    "no_spawn_while_exiting_eq"]]
 RULE = ("seeded lifecycle histories: 0-2 startup handlers (ok / sleeping / temporary with retries / permanent / retries "
         "exhausted), 0-2 cleanup handlers (ok / sleeping / temporary / permanent), 0-2 daemons (obey / needs cancellation / "
-        "swallows one cancellation / exits on its own; with and without cancellation_timeout/backoff), in-flight update handlers "
-        "(sleep), 0-3 objects, peering on/off, and ONE trigger placed at every phase (during startup, exactly at its end, during "
-        "discovery, while watchers start, steady state, with handlers in flight): stop flag, cancellation of operator(), fatal "
-        "ERROR on the resource / peering / CRD watch, a worker exception (poisoned event, failing memo copy), 500s on discovery "
-        "(initial scan, re-scan from a CRD event) and on the peering keep-alive (also fails the withdrawal), startup and cleanup "
-        "handler failures, deletion and re-creation of the served CRD (HTTP 404 in the watcher: not a failure; watched again), "
-        "login_fail (HTTP 401 invalidates the credentials, the re-login fails for good: the core task dies and must stop the operator, "
-        "cleanup handlers included; with peering in ~30 % of the cases: the operator must still return in time, regression of C20-F7), "
-        "worker_fail_depletion (a poisoned event queued behind a handler in flight, then a stop: the worker fails while its "
-        "watcher depletes), early_stop_peering (the API server applies a peering PATCH at once but answers 1/8-1/2 s later; the "
-        "stop comes 4-16 ticks after startup, while the FIRST keep-alive is in flight: the record must still be withdrawn). "
-        "A case is distinct by (trigger kind, phase, startup/cleanup outcome shapes, daemon modes, in-flight, "
-        "peering); non-trivial when a trigger fires.")
+        "swallows one cancellation / exits on its own / polls its flag with asyncio.sleep / needs time to unwind after the "
+        "cancellation; with and without cancellation_timeout/backoff, inside and outside their stopper's patience), a timer "
+        "(25 %: an invocation in flight at the stop is always given up), in-flight update handlers (sleep), 0-3 objects, a second "
+        "served kind with a handler in flight on ITS stream (35 % of the stream-failure / stop histories), peering on/off, an empty "
+        "vault at the start (15 %: the login handlers run behind the started flag), and ONE OR TWO triggers placed at every phase "
+        "(during startup, exactly at its end, during discovery, while watchers start, steady state, with handlers in flight): stop "
+        "flag, cancellation of operator(), fatal ERROR on the resource / peering / CRD watch, a worker exception (poisoned event, "
+        "failing memo copy), 500s on discovery (initial scan, re-scan from a CRD event) and on the peering keep-alive (also fails "
+        "the withdrawal), startup and cleanup handler failures, deletion and re-creation of the served CRD (HTTP 404 in the "
+        "watcher: not a failure; watched again), login_fail (HTTP 401 invalidates the credentials, the re-login fails for good — or "
+        "the very first login does, with an empty vault: the core task dies and must stop the operator, cleanup handlers included; "
+        "with peering in ~30 %), login_fail_at_stop (a stop flag and, at the same moment, HTTP 401 on the next request — the peering "
+        "withdrawal or the patch of a handler in flight —: the core task dies DURING the shutdown, after the stop-flag checker has "
+        "gone; the failure must still be re-raised, after the cleanup handlers), worker_fail_depletion (a poisoned event queued behind a handler in flight, then a stop), "
+        "worker_fail_gone (the same with a CRD deletion instead of the stop: regression of C20-F5 'keeps running'), early_stop_peering (the API "
+        "server applies a peering PATCH at once but answers late; the stop comes while the FIRST keep-alive is in flight), and the "
+        "two-trigger histories failure_then_stop (stream failure, 1/64-1/4 s later a flag or a cancellation: regression of C20-F8; with "
+        "a cancellation after the orchestrator has ended: C20-D4), two_failures, flag_then_cancel (a handler in flight, a flag, "
+        "1/64-1/2 s later a cancellation: regression of C20-F11, and C20-D4 — the repeated cancellation catches the startup/cleanup "
+        "task in its wait, in the cleanup, or not at all), respawn_daemon (two events of an object with a daemon queued at the stop: "
+        "regression of C20-F9), cancel_in_spawn (a cancellation one or two loop iterations after the call: regression of C20-F10). "
+        "A case is distinct by (trigger kind, phase, startup/cleanup outcome shapes, daemon modes, timer, second kind, empty "
+        "vault, in-flight, peering, outcome); non-trivial when a trigger fires.")
 TRUSTED = ["harness/sim (virtual-time loop, fake API server, scripted handlers) and harness/props/sim_c20.py (attribute-level "
            "instrumentation: each log entry is written inside the atomic segment it names)",
            "CPython asyncio task/cancellation semantics — exercised, not modelled",
-           "two label arguments are still chosen by the abstraction from how the task ENDS (prophecy): `fail` of the daemon killer's "
-           "and of the keep-alive task's `finally:`; the orchestrator's is forced by the model (`fail = orchErr`), the watchers' is "
-           "observed (exception in flight)"]
+           "three label arguments are chosen by the abstraction by LOOK-AHEAD in the log (prophecy): `fail` of the daemon killer's "
+           "and of the keep-alive task's `finally:` (from how the task ends) and `coop` of a daemon at its spawn (from what its exit "
+           "stopper observes later: task over / given up); the orchestrator's `fail` is forced by the model (`fail = orchErr`), the "
+           "watchers' is observed (exception in flight)"]
 ASSUMPTIONS = ["oracle bound = the bound of the Lean theorems + 1 s slack for request latencies: operator() must return within "
                "G + C + H + 1 s after a stop request (flag, cancellation) and within 3*G + C + H + 1 s after the first failure, "
                "G = E + W + D (E = settings.queueing.exit_timeout; W = sum(error_backoffs) + retries of the withdrawal PATCH, peering "
                "only; D = max(cancellation_backoff + cancellation_timeout) over daemons; C = scripted duration of the cleanup "
                "handlers; H = 5 s hard-coded hung-task grace of run_tasks). The three G are sequential in the code: the failing "
-               "watcher's own depletion, the orchestrator stopping the other streams, the root observers at shutdown",
+               "watcher's own depletion, the orchestrator stopping the other streams, the root observers at shutdown. A lingering "
+               "shorter than that bound is invisible to the oracle (only the tie's timing check sees it)",
                "the bounds (exit_bound_partial, failure_to_stop_bound_partial) are proved and checked for COOPERATIVE runs only: tasks "
                "honour cancellation (a daemon swallowing more cancellations than stop_daemon + run_tasks send hangs the exit: "
-               "aiotasks.stop has no timeout — noncooperative_exit_unbounded_witness); every generated history is cooperative",
-               "one stop trigger per run (a cancellation of operator() after the stopping has begun, and a second cancellation, "
-               "abandon the tasks by design; `rtCancel` exists only while run_tasks waits)",
+               "aiotasks.stop has no timeout — noncooperative_exit_unbounded_witness); every generated history is cooperative. SYNC "
+               "handlers are a non-cooperative class by kopf's design (a thread cannot be cancelled: a sync startup handler in "
+               "time.sleep(12) delays the return by 11.5 s after a flag at 0.5 s — reproduced by the reviewer, /tmp/audit_b2/C20/"
+               "exp_sync_handler.py); the harness runs sync handlers inline, so that class is not generated",
+               "settings.process.ultimate_exiting_timeout is set to None by the harness (kopf's default, 600 s, arms "
+               "loop.call_later(..., pthread_kill, SIGKILL) on every non-flag stop and never disarms it when operator() returns: an "
+               "embedding process whose loop lives on is killed 10 min after a failed operator) — not modelled, not checked",
+               "stop triggers: one or two per run, at every await of spawn_tasks / run_tasks the current tree handles (sleep(0) of "
+               "spawn_tasks; the wait for the first root task; stop(root_pending); the wait for the hung tasks). NOT modelled and not "
+               "generated: a further cancellation of an operator() that is already inside one of its stop(…, cancelled=True) "
+               "(aiotasks.stop gives up BY DESIGN, 'double-cancelling': its tasks are left behind — a third trigger after "
+               "flag-then-cancel, a second one after a plain cancellation or a cancellation inside spawn_tasks), or inside the final "
+               "stop(hung_pending), which has no handler but is instantaneous in a cooperative run; a cancellation of the "
+               "startup/cleanup task inside stop(core_tasks) after a FAILED startup (1-2 loop iterations: it would replace the "
+               "startup failure)",
+               "'cleanup handlers run': PROVED as 'cleanup LAST' (cleanup_last); that they RUN is demanded by the oracle and fails, by "
+               "kopf's documented design, when operator() is cancelled while it is already stopping (two stop triggers): deviation "
+               "C20-D4 (repeated_cancel_skips_cleanup_witness); after ONE trigger of any kind the cleanup handlers do run (oracle)",
                "the cleanup activity is bounded by the scripted duration C (kopf sets no timeout for cleanup handlers)",
                "the orchestrator's OWN failure (an exception out of its adjusting loop; it handles only CancelledError) is not "
-               "modelled: it is the one root failure after which the ensemble would outlive the cleanup (cleanup_last's third conjunct)",
-               "'the peering record is withdrawn' is proved and checked as 'the withdrawal was attempted by every keep-alive task': "
-               "kopf logs and ignores a failed withdrawal PATCH (withdrawal_may_fail_witness; histories with faults on the peering "
-               "PATCH are exempt from the oracle's 'record gone' clause)",
-               "'daemons are stopped': cooperative daemons that got an exit stopper are over before the cleanup (cleanup_last, "
-               "oracle); the others are 'hung tasks', cancelled after the cleanup, none alive at return",
-               "EXEMPTION of the clause 'the peering record is withdrawn': once the credentials retriever has died there are no "
-               "credentials, so no withdrawal PATCH can be sent (since 83aec44 the shielded touch(lifetime=0) fails at once with "
-               "LoginError; kopf logs 'Couldn't remove self from the peering' and ignores it): the oracle does not demand the record to "
-               "be gone in such runs, the model sees the attempt as `withdraw i false`; the record expires by its lifetime (60 s)",
+               "modelled and not generated",
+               "'the peering record is withdrawn' is PROVED as 'the withdrawal was attempted by every keep-alive task' "
+               "(peering_withdrawal_attempted_partial); the oracle demands the record to be gone and reports a failed withdrawal "
+               "(request error after the retries, or no credentials after the credentials retriever died) as the by-design "
+               "deviation C20-D3",
+               "'daemons are stopped': PROVED for the daemons whose exit stopper does not give them up, and that every daemon running "
+               "after the killer's sweep has a stopper (cleanup_last_partial); the oracle demands that NO daemon or timer invocation "
+               "runs when the cleanup begins and reports those kopf abandons by design (kopf-default daemons that ignore their flag; "
+               "timers, which cannot have a cancellation_timeout) as deviation C20-D1. settings.background.instant_exit_timeout is "
+               "left at its default (None; 10 zero-time cycles)",
                "a run in which the oracle reports the signature of C20-F7 (fixed by 83aec44: operator() never returns with peering on "
                "and a dead credentials retriever) would be NON-COOPERATIVE and is skipped by the trace tie (counted as "
-               "`tie_skipped_noncooperative`); on the current tree there is none — login_fail histories with peering (~30 %) and the "
-               "corpus witness C20-F7 return within the bound and their traces are accepted",
-               "sync handlers run inline (no real threads); liveness endpoint and _command root tasks are not started"]
+               "`tie_skipped`); on the current tree there is none",
+               "liveness endpoint, _command, real admission webhooks and the event poster (posting disabled) are not started; one "
+               "namespace scope (cluster-wide); requests of daemons/timers themselves are not generated (scripted daemons make none)"]
 
 F3_SIG = {"site": "orchestration.orchestrator", "shape": "ensemble task ended with an exception while the operator keeps running"}
 
@@ -144,6 +214,9 @@ ABANDON_SIG = {"site": "daemons.stop_daemon",
                         "through the cleanup activity until the hung-task stop"}
 WITHDRAW_SIG = {"site": "peering.keepalive",
                 "shape": "a failed withdrawal (request error or no credentials) is logged and ignored: the peering record outlives the operator"}
+CLEANUP_CUT_SIG = {"site": "running.startup_cleanup_activities",
+                   "shape": "operator() cancelled while it is already stopping: the repeated cancellation interrupts the startup/cleanup "
+                            "task, the cleanup handlers are skipped or cut short"}
 VAULT_SIG = {"site": "peering.keepalive",
              "shape": "withdrawal waits for credentials for ever after the credentials retriever died: operator() never returns"}
 DROPPED_SIG = {"site": "queueing.watcher",
@@ -285,13 +358,45 @@ def extract(ctx: Ctx) -> None:
         marks = marks or bool(_calls(first, "mark_operator_exiting"))
     honours = any(isinstance(n, ast.If) and "operator_exiting" in ast.unparse(n.test)
                   and any(isinstance(b, ast.Return) for b in n.body) for n in ast.walk(spawner))
-    facts = {"killerMarksExiting": marks, "spawnHonoursExiting": honours, "rootTaskAwaitsCore": root_awaits_core, "coreErrorsAfterCleanup": core_after_cleanup,
+    # (9) running.py: is a cancellation of operator() handled (a) inside spawn_tasks' final `await asyncio.sleep(0)` and (b) while
+    #     run_tasks awaits `aiotasks.stop(root_pending, …)`? (findings C20-F10 / C20-F11: neither is, in the current tree)
+    def _guarded_by_cancel_handler(fn: ast.AST, is_target: Any) -> bool:
+        for tnode in [n for n in ast.walk(fn) if isinstance(n, ast.Try)]:
+            handles = any(h.type is not None and "CancelledError" in ast.unparse(h.type) and _calls(h, "stop") for h in tnode.handlers)
+            if handles and any(is_target(x) for b in tnode.body for x in ast.walk(b)):
+                return True
+        return False
+    run_t = _find_def(rtree, "run_tasks")
+    sleeps0 = [c for c in _calls(spawn, "sleep") if c.args and isinstance(c.args[0], ast.Constant) and c.args[0].value == 0]
+    stops_pending = [c for c in _calls(run_t, "stop") if c.args and "root_pending" in ast.unparse(c.args[0])]
+    if not sleeps0 or not stops_pending:
+        raise ExtractError("spawn_tasks has no final `sleep(0)` / run_tasks no `stop(root_pending)`: unknown shape")
+    spawn_sweeps = _guarded_by_cancel_handler(spawn, lambda x: x in sleeps0)
+    stop_sweeps = _guarded_by_cancel_handler(run_t, lambda x: x in stops_pending)
+    # (10) queueing.py: does the watcher re-check `worker_error` in its `finally:` AFTER the depletion of the workers and the
+    #      closing of the scheduler, and raise? (finding C20-F5 / its repair, /repo 69d1957)
+    try:
+        qtree = ast.parse((ctx.repo / "kopf/_core/reactor/queueing.py").read_text())
+    except (OSError, SyntaxError) as e:
+        raise ExtractError(f"cannot parse queueing.py: {e}")
+    qwatcher = _find_def(qtree, "watcher")
+    finals = [n.finalbody for n in ast.walk(qwatcher) if isinstance(n, ast.Try) and n.finalbody
+              and any("_wait_for_depletion" in ast.unparse(x) for x in n.finalbody)]
+    if not finals:
+        raise ExtractError("queueing.watcher has no `finally:` that waits for the depletion of the workers: unknown shape")
+    rechecks = False
+    for fb in finals:
+        closes = [k for k, st_ in enumerate(fb) if "scheduler.close" in ast.unparse(st_)]
+        after = fb[(max(closes) + 1) if closes else len(fb):]
+        rechecks = rechecks or any(isinstance(st_, ast.If) and "worker_error" in ast.unparse(st_.test)
+                                   and any(isinstance(x, ast.Raise) for x in ast.walk(st_)) for st_ in after)
+    facts = {"watcherRechecksWorkerError": rechecks, "spawnTasksSweepsOnCancel": spawn_sweeps, "runTasksSweepsOnCancel": stop_sweeps, "killerMarksExiting": marks, "spawnHonoursExiting": honours, "rootTaskAwaitsCore": root_awaits_core, "coreErrorsAfterCleanup": core_after_cleanup,
              "orchestratorShieldsStop": shields_stop, "attachesDoneCallback": attaches, "callbackCancelsOrchestrator": cancels, "callbackIgnoresNotFound": ignores404,
              "reraisesTaskError": reraises, "doneTasksAreRedundant": done_redundant, "scanGathers": gathers,
              "scanCancelsInFinally": cancels_children, "scanUsesAsCompleted": uses_as_completed}
     ctx.extra["extracted_facts"] = facts
-    text = ("/- GENERATED by harness/props/c20.py::extract from kopf/_core/reactor/orchestration.py, running.py and\n"
-            "   kopf/_cogs/clients/scanning.py — do not edit. -/\nnamespace Kopf.C20.Extracted\n"
+    text = ("/- GENERATED by harness/props/c20.py::extract from kopf/_core/reactor/orchestration.py, running.py, queueing.py,\n"
+            "   kopf/_core/engines/daemons.py and kopf/_cogs/clients/scanning.py — do not edit. -/\nnamespace Kopf.C20.Extracted\n"
             + "".join(f"def {k} : Bool := {'true' if v else 'false'}\n" for k, v in facts.items())
             + "end Kopf.C20.Extracted\n")
     leanio.write_generated("Kopf/Extracted/C20.lean", text)
@@ -340,16 +445,18 @@ def bound_s(sc: dict, kind: str = "failure") -> float:
     return (1 if kind in ("flag", "cancel") else 3) * G + g["C"] + g["H"] + SLACK_S
 
 
-def coop_daemons(sc: dict) -> set[str]:
-    """ids of the daemon handlers that end within their exit stopper's patience (the model's `coop`)"""
-    return {h["id"] for h in sc.get("handlers", []) if h["kind"] == "daemon" and (
-        h["daemon"].get("mode") == "obey" or
-        (h["daemon"].get("mode") in ("cancel", "exit") and (h.get("opts") or {}).get("cancellation_timeout") is not None))}
+def given_up(log: list, upto: int | None = None) -> set[tuple]:
+    """OBSERVED: the daemons (handler id, object) whose stopper ended while their task was still alive — `stop_daemon` has set the
+    stopper, waited `cancellation_backoff`, cancelled the task if `cancellation_timeout` is set, waited that long, and then given
+    the daemon up ("Leaving it orphaned"). Every other daemon that got a stopper ended within its stopper's patience."""
+    return {(e[2], e[4] if len(e) > 4 else None) for e in log[:upto] if e[1] == "stopperEnd" and not e[3]}
 
 
-def model_cfg(sc: dict, fixed: bool, core_watched: bool, orch_shielded: bool = False) -> dict:
+def model_cfg(sc: dict, fixed: bool, core_watched: bool, orch_shielded: bool = True, spawn_swept: bool = True,
+              stop_swept: bool = True, depl_escalates: bool = True) -> dict:
     g = graces(sc)
-    return {"fixed": fixed, "coreWatched": core_watched, "orchShielded": orch_shielded, "E": ticks(g["E"]), "W": ticks(g["W"]), "D": ticks(g["D"]),
+    return {"fixed": fixed, "coreWatched": core_watched, "orchShielded": orch_shielded, "spawnSwept": spawn_swept,
+            "stopSwept": stop_swept, "deplEscalates": depl_escalates, "E": ticks(g["E"]), "W": ticks(g["W"]), "D": ticks(g["D"]),
             "C": ticks(g["C"]), "H": ticks(g["H"])}
 
 
@@ -370,9 +477,25 @@ def abstract(obs: dict, sc: dict | None = None, checker_awaits_core: bool = Fals
     hung_wait_cancelled = False
     orch_err = False               # a (non-404) failed ensemble task has cancelled the running orchestrator
     orch_stopping = False
+    open_stop_redundant = False    # the orchestrator's latest `aiotasks.stop` is the one of `terminate_redundancies`
     wd_requests: dict[int, int] = {}
     out: list[list] = []
-    coop = coop_daemons(sc or {})
+    spawned_seen = False
+    # cooperativity of a daemon task = what its stopper OBSERVED (label argument of `daemonSpawn`: a prophecy by look-ahead in the
+    # log): for the k-th task of (handler, object), was the first stopper outcome after its creation "gave it up"?
+    gave_up_at: dict[tuple, list[int]] = {}
+    for i_, e_ in enumerate(log):
+        if e_[1] == "stopperEnd" and not e_[3]:
+            gave_up_at.setdefault((e_[2], e_[4] if len(e_) > 4 else None), []).append(i_)
+    created_at: dict[tuple, list[int]] = {}
+    for i_, e_ in enumerate(log):
+        if e_[1] == "daemonCreated":
+            created_at.setdefault((e_[2], e_[3]), []).append(i_)
+
+    def observed_coop(key: tuple, pos: int) -> bool:
+        later = [p for p in created_at.get(key, []) if p > pos]
+        nxt = later[0] if later else len(log)
+        return not any(pos < g < nxt for g in gave_up_at.get(key, []))
     # outcomes of the withdrawal PATCHes, in the order of their requests
     wd_ok = [isinstance(r.get("response"), int) and r["response"] < 400 for r in obs.get("requests", []) if r.get("withdraw")]
     n_wd = 0
@@ -402,19 +525,35 @@ def abstract(obs: dict, sc: dict | None = None, checker_awaits_core: bool = Fals
             return ["worker", ref - 1]
         return ["root", f"unknown:{kind}"]
 
-    for e in log:
+    for pos_, e in enumerate(log):
         t, kind, a = ticks(e[0]), e[1], e[2:]
 
         def put(*lab: Any) -> None:
             out.append([t, *lab])
-        if kind in ("spawn", "spawned", "rtWaitDone", "rtCancelled", "rtStopRootsEnd", "rtHungWaitEnd", "rtStopHungEnd",
-                    "rtReraise", "scReraiseCore", "scCleanupBegin", "orchStopSubsEnd", "stopperEnd", "zombies",
-                    "poisoned", "scStopCoreCancelled", "abandoned"):
+        if kind == "spawned":
+            spawned_seen = True
+        if kind == "rtStopRootsCancelled":
+            # operator() was cancelled while run_tasks awaited `stop(root_pending)`: since /repo 883284c it stops ALL root tasks
+            # again (`rtStopRootsBegin … cancelled`, below: `rtCancel`); a tree without that handler ends operator() here (the
+            # historical variant `stopSwept := false`, finding C20-F11: the run leaves the model)
+            if not any(x[1] == "rtStopRootsBegin" and x[3] for x in log[pos_ + 1:]):
+                put("stopCancel")
+            continue
+        if kind in ("scWaitRootsCancelled", "scStopCoreCancelled", "vaultCloseCancelled"):
+            # a repeated cancellation reached `startup_cleanup_activities` where it waited: no (further) cleanup, by design
+            put("scCut")
+            continue
+        if kind in ("spawn", "spawned", "spawnCancelled", "rtWaitDone", "rtCancelled", "rtStopRootsEnd", "rtHungWaitEnd",
+                    "rtStopHungEnd", "rtReraise", "scReraiseCore", "scCleanupBegin", "orchStopSubsEnd", "stopperEnd", "zombies",
+                    "poisoned", "abandoned"):
             continue
         if kind == "orchStopSubsCancelled":
-            # the orchestrator's `await aiotasks.stop(ensemble)` was interrupted by a second cancellation (finding C20-F8):
-            # the model does not describe the code beyond this label — the driver stops comparing here ("truncated")
-            put("orchAbandon")
+            # the orchestrator's EXIT stop `await aiotasks.stop(ensemble)` was interrupted by a second cancellation: a tree without
+            # the shield of /repo ab6fb15 (historical variant `orchShielded := false`, finding C20-F8) — the model does not describe
+            # the code beyond this label, the driver stops comparing here ("truncated"). (When the interrupted stop is the one of
+            # `terminate_redundancies`, this is merely the cancellation of the RUNNING orchestrator arriving: no label.)
+            if not open_stop_redundant:
+                put("orchAbandon")
             continue
         if kind == "killerFinally":
             if not killer_stopping:
@@ -476,6 +615,7 @@ def abstract(obs: dict, sc: dict | None = None, checker_awaits_core: bool = Fals
             else:
                 put("coreEnd", a[1]) if a[0] == "core" else put("rootEnd", a[0], a[1])
         elif kind == "orchStopSubsBegin":
+            open_stop_redundant = bool(a[1])
             if not a[1]:
                 # `fail` is what the model forces it to be: has a failed ensemble task cancelled the orchestrator? (observed so far)
                 orch_stopping = True
@@ -537,18 +677,20 @@ def abstract(obs: dict, sc: dict | None = None, checker_awaits_core: bool = Fals
             hkind, hid, name = a[0], a[1], a[2]
             if hkind in ("startup", "cleanup", "login"):     # activities: the core task's login has no label of its own
                 continue
-            if hkind == "daemon":
-                pass        # (the model's daemon is the daemon TASK: labels at `daemonCreated` / `daemonGone`)
+            if hkind in ("daemon", "timer"):
+                pass        # (the model's daemon is the daemon/timer TASK: labels at `daemonCreated` / `daemonGone`)
             else:
                 put("act", task("worker", a[-1]))
         elif kind == "daemonCreated":
             daemons[(a[0], a[1])] = n_daemons
-            put("daemonSpawn", n_daemons, a[0] in coop)
+            put("daemonSpawn", n_daemons, observed_coop((a[0], a[1]), pos_))
             n_daemons += 1
         elif kind == "daemonGone":
             put("daemonExit", daemons[(a[0], a[1])])
         elif kind == "rtStopRootsBegin":
             put("rtCancel" if a[1] else "rtStopRoots")
+            if stopping_begun:          # the second call (`stop(root_tasks, cancelled=True)` after `stop(root_pending)`)
+                continue
             stopping_begun = True
             if checker_was_watcher:
                 put("rootEnd", "stopFlag", "done")
@@ -562,6 +704,12 @@ def abstract(obs: dict, sc: dict | None = None, checker_awaits_core: bool = Fals
         elif kind == "rtStopHungBegin":
             if not (a[1] and hung_wait_cancelled):      # (`rtCancel` from `hungWait` goes to `cStoppingHung` at once)
                 put("rtCStopHung" if a[1] else "rtStopHung")
+        elif kind == "opEnd" and not spawned_seen and not stopping_begun:
+            # operator() ended before spawn_tasks had returned and without having stopped anything: cancelled inside its `sleep(0)`
+            # in a tree without the handler of /repo d6da86b (historical variant `spawnSwept := false`, finding C20-F10): the run
+            # leaves the model. (In the current tree the same two stops follow as for a cancellation of `run_tasks`: `rtCancel`.)
+            exited = True
+            put("spawnCancel")
         elif kind == "opEnd":
             exited = True
             put("rtExit", {"done": "returned", "failed": "raised", "cancelled": "cancelled"}[a[0]])
@@ -689,15 +837,21 @@ def oracle(sc: dict, obs: dict) -> tuple[list[tuple[str, dict]], dict]:
     #  by the killer and got its exit stopper)
     created = {(e[2], e[3]): i for i, e in enumerate(log) if e[1] == "daemonCreated"}
     late_daemons = [] if killer_pos is None else [(log[i][3], log[i][4], i) for i in pos["hBegin"]
-                                                  if log[i][2] == "daemon" and created.get((log[i][3], log[i][4]), i) > killer_pos]
+                                                  if log[i][2] in ("daemon", "timer") and created.get((log[i][3], log[i][4]), i) > killer_pos]
     stop_cancelled = [i for i, e in enumerate(log) if e[1] == "rtStopRootsCancelled"]
     never_stopped = ret is not None and ret["how"] == "cancelled" and not any(e[1] == "rtStopRootsBegin" for e in log)
     facts["double_cancelled_orchestrator"] = bool(double_cancel)
-    # runs the model does not describe (it begins at run_tasks and knows one stop trigger): judged by the oracle only
+    # (observations that name the regression when one of the repaired findings C20-F10 / C20-F11 comes back; no clause below is
+    #  relaxed for them)
     if never_stopped:
-        facts["outside_model"] = "C20-F10"
-    elif stop_cancelled:
-        facts["outside_model"] = "C20-F11"
+        facts["operator_cancelled_in_spawn_tasks_nothing_stopped"] = True
+    if stop_cancelled:
+        facts["operator_cancelled_while_stopping_roots"] = True
+    # a REPEATED cancellation reached the startup/cleanup task where it waited (for the other root tasks, for the core tasks, in
+    # the cleanup activity, in vault.close()): kopf skips / cuts the cleanup handlers short then, by design (deviation C20-D4)
+    cleanup_cut = [e for e in log if e[1] in ("scWaitRootsCancelled", "scStopCoreCancelled", "vaultCloseCancelled")
+                   or (e[1] == "scCleanupEnd" and e[2] == "cancelled")]
+    facts["cleanup_cut_by_repeated_cancellation"] = [e[1] for e in cleanup_cut]
     facts["late_daemons"] = [d[:2] for d in late_daemons]
     facts["workers_failed_during_depletion"] = len(dropped)
     facts["failures"] = [f[2] + ":" + str(f[3]) for f in failures]
@@ -756,7 +910,7 @@ def oracle(sc: dict, obs: dict) -> tuple[list[tuple[str, dict]], dict]:
                             f"orphaned; a watcher of it, cancelled as a hung task, never ends (its scheduler's helper tasks were "
                             f"cancelled alongside): operator() still not returned at t={limit} (bound {bound} s); outcome {ret}",
                             DOUBLE_SIG))
-            elif late_daemons and ret is not None and any(log[j][1] == "hEnd" and log[j][2] == "daemon" and
+            elif late_daemons and ret is not None and any(log[j][1] == "hEnd" and log[j][2] in ("daemon", "timer") and
                                                           (log[j][3], log[j][4]) == d[:2] and log[j][0] > limit - H_S
                                                           for d in late_daemons for j in pos["hEnd"] if j > d[2]):
                 d = late_daemons[0]
@@ -824,11 +978,11 @@ def oracle(sc: dict, obs: dict) -> tuple[list[tuple[str, dict]], dict]:
         open_d: dict[tuple, int] = {}
         for i in range(op_end):
             e = log[i]
-            if e[1] == "hBegin" and e[2] == "daemon":
+            if e[1] == "hBegin" and e[2] in ("daemon", "timer"):
                 open_d[(e[3], e[4])] = i
-            elif e[1] == "hEnd" and e[2] == "daemon":
+            elif e[1] == "hEnd" and e[2] in ("daemon", "timer"):
                 open_d.pop((e[3], e[4]), None)
-        if open_d and not (never_stopped or stop_cancelled):       # (those two findings: reported below under their signatures)
+        if open_d:
             fail("daemons.daemon_killer", "a daemon was still running when operator() returned", f"{sorted(open_d)}")
         # nothing goes on after the run call returned
         after = [log[i] for i in range(op_end + 1, len(log)) if log[i][1] in ("api", "hBegin", "hEnd", "rootEnd", "subEnd", "workerEnd")]
@@ -841,7 +995,7 @@ def oracle(sc: dict, obs: dict) -> tuple[list[tuple[str, dict]], dict]:
         elif after:
             fail("running.run_tasks", "activity after operator() returned", f"{after[:3]}")
         # the peering record is withdrawn
-        if sc.get("peering") and not (never_stopped or stop_cancelled):
+        if sc.get("peering"):
             pings = [i for i in apis if log[i][2] == "pinger" and not log[i][7]]
             wd = [i for i in apis if log[i][7]]
             attempts = [e for e in log if e[1] == "withdrawEnd"]
@@ -859,8 +1013,18 @@ def oracle(sc: dict, obs: dict) -> tuple[list[tuple[str, dict]], dict]:
                 fail("peering.keepalive", "peering record still present after exit", f"{obs.get('peering_status')}")
         # cleanup handlers run after everything else has stopped
         cl_begin = [i for i in pos["hBegin"] if log[i][2] == "cleanup"]
-        if startup_ok and cleanup_ids and not cl_begin and (never_stopped or stop_cancelled):
-            pass                                    # C20-F10 / C20-F11, reported above under their signatures
+        n_stops = sum(1 for _p, _t, k_ in trig if k_ in ("flag", "cancel")) + (1 if failures else 0)
+        cl_cancelled = [log[i] for i in pos["hEnd"] if log[i][2] == "cleanup" and log[i][5] == "cancelled"]
+        if startup_ok and cleanup_ids and cleanup_cut and "cancel" in kinds and n_stops >= 2 and (not cl_begin or cl_cancelled):
+            # "cleanup handlers run after everything else has stopped": they did not run (or not to their end), because operator()
+            # was cancelled while it was already stopping — kopf's documented design ("no graceful period at all"), recorded as the
+            # by-design deviation C20-D4, not exempted
+            bad.append((f"operator() was cancelled at t={[t_ for _p, t_, k_ in trig if k_ == 'cancel'][0]} while it was already stopping "
+                        f"(triggers {kinds}): the startup/cleanup task was interrupted ({cleanup_cut[0][1]} at t={cleanup_cut[0][0]}); the "
+                        f"cleanup handlers {'did not run at all' if not cl_begin else 'were cut short: ' + str(cl_cancelled[0][3]) + ' ended cancelled'}"
+                        f"; outcome {ret}", CLEANUP_CUT_SIG))
+        elif startup_ok and cleanup_ids and cl_cancelled:
+            fail("running.startup_cleanup_activities", "a cleanup handler was cancelled before its end", f"{cl_cancelled[0]}, outcome {ret}")
         elif startup_ok and cleanup_ids and not cl_begin:
             # (also after a cancellation of operator(): the startup/cleanup task swallows the first cancellation and runs the
             #  cleanup handlers once the other root tasks are gone)
@@ -876,9 +1040,10 @@ def oracle(sc: dict, obs: dict) -> tuple[list[tuple[str, dict]], dict]:
             if orphan_api:
                 bad.append((f"cleanup began at t={log[c0][0]}; {len(orphan_api)} discovery request(s) by orphaned children of the "
                             f"cancelled observer followed, first: {orphan_api[0][4]} {orphan_api[0][5]} at t={orphan_api[0][0]}", ORPHAN_SIG))
+            DK = ("daemon", "timer")            # daemons and timers: one machinery (`_runner`, exit stoppers)
             late = [log[i] for i in range(c0 + 1, op_end) if
                     (log[i][1] == "api" and log[i][2] not in ("startupCleanup", "daemon") and log[i] not in orphan_api) or
-                    (log[i][1] in ("hBegin", "hEnd") and log[i][2] in CHANGE_KINDS) or
+                    (log[i][1] in ("hBegin", "hEnd") and log[i][2] in CHANGE_KINDS and log[i][2] not in DK) or
                     (log[i][1] in ("rootEnd",) and log[i][2] not in ("startupCleanup",)) or
                     (log[i][1] in ("subEnd", "workerEnd"))]
             if late and double_cancel:
@@ -887,33 +1052,41 @@ def oracle(sc: dict, obs: dict) -> tuple[list[tuple[str, dict]], dict]:
             elif late:
                 fail("running.startup_cleanup_activities", "cleanup handlers began before the other activity had stopped",
                      f"cleanup began at t={log[c0][0]}; later: {late[:3]}")
-            # "daemons are stopped … cleanup handlers run after everything else has stopped": EVERY daemon running when the
-            # cleanup begins is a deviation; which one it is depends on how the daemon got there
+            # "daemons are stopped … cleanup handlers run after everything else has stopped": EVERY daemon or timer invocation that
+            # runs when the cleanup begins — or begins later — is a deviation; which one depends on how it got there (OBSERVED:
+            # was its task created after the killer's sweep? did its exit stopper give it up?)
             running_d: dict[tuple, int] = {}
-            for i in range(c0):
+            for i in range(max(c0, op_end)):       # (c0 > op_end only when operator() returned before its shutdown: C20-F10 / F11)
                 e = log[i]
-                if e[1] == "hBegin" and e[2] == "daemon":
+                if e[1] == "hBegin" and e[2] in DK:
                     running_d[(e[3], e[4])] = i
-                elif e[1] == "hEnd" and e[2] == "daemon":
+                elif e[1] == "hEnd" and e[2] in DK and i < c0:
                     running_d.pop((e[3], e[4]), None)
-            # (requests of daemons during the cleanup belong to the same deviations: a daemon that is still there)
-            coop = coop_daemons(sc)
+            # (requests and further invocations of such daemons / timers during the cleanup belong to the same deviation)
+            gave_up = given_up(log, max(c0, op_end))
             late_running = sorted(d for d, i in running_d.items() if killer_pos is not None and created.get(d, i) > killer_pos)
             swept = {d: i for d, i in running_d.items() if d not in late_running}
-            running_coop = sorted(d for d in swept if d[0] in coop)
-            abandoned = sorted(d for d in swept if d[0] not in coop)
+            abandoned = sorted(d for d in swept if d in gave_up)
+            unstopped = sorted(d for d in swept if d not in gave_up)
             facts["abandoned_daemons_at_cleanup"] = abandoned
             if late_running:
                 bad.append((f"cleanup began at t={log[c0][0]} while daemons {late_running}, spawned after the daemon killer's sweep at "
                             f"t={log[killer_pos][0]}, were running: nobody stops them before the hung-task stop", RESPAWN_SIG))
-            if running_coop and not dk_failed:
-                fail("daemons.daemon_killer", "cleanup activity began while a cooperative daemon was still running",
-                     f"cleanup began at t={log[c0][0]} while daemons {running_coop} were still running")
+            if unstopped and not dk_failed:
+                fail("daemons.daemon_killer", "cleanup activity began while a daemon that no exit stopper had given up was still running",
+                     f"cleanup began at t={log[c0][0]} while daemons/timers {unstopped} were running (or started later); stoppers that "
+                     f"gave up: {sorted(gave_up)}")
+            # requests of daemon/timer tasks during the cleanup: API activity that has not stopped — part of the deviations above when
+            # such a daemon is reported there; a violation of its own otherwise
+            daemon_api = [log[i] for i in range(c0 + 1, op_end) if log[i][1] == "api" and log[i][2] == "daemon"]
+            if daemon_api and not (late_running or unstopped or abandoned):
+                fail("daemons.daemon_killer", "a daemon's API request during the cleanup activity",
+                     f"cleanup began at t={log[c0][0]}; later: {daemon_api[:3]}")
             if abandoned and not dk_failed:
-                bad.append((f"cleanup began at t={log[c0][0]} while daemons {abandoned} were still running: they did not exit on their "
-                            f"stopper and kopf abandoned them (cancellation_timeout: "
-                            f"{sorted({str((h.get('opts') or {}).get('cancellation_timeout')) for h in sc.get('handlers', []) if h['kind'] == 'daemon' and h['id'] in {d[0] for d in abandoned}})})",
-                            ABANDON_SIG))
+                opts_of = {h["id"]: (h.get("opts") or {}) for h in sc.get("handlers", []) if h["kind"] in DK}
+                bad.append((f"cleanup began at t={log[c0][0]} while daemons/timers {abandoned} were still running: they did not exit on "
+                            f"their stopper and kopf abandoned them (cancellation_timeout: "
+                            f"{sorted({str(opts_of.get(d[0], {}).get('cancellation_timeout')) for d in abandoned})})", ABANDON_SIG))
     return bad, facts
 
 
@@ -939,13 +1112,19 @@ DAEMON_SHAPES = [
     ("cancel-hung", {"mode": "cancel"}, {}),
     ("ignore1", {"mode": "ignore"}, {"cancellation_timeout": 1.0}),
     ("exit", {"mode": "exit", "after": 3.0}, {}),
+    # daemons that leave the "wakes at once or sleeps for ever" pattern: polling with asyncio.sleep, slow unwinding
+    ("poll-default", {"mode": "poll", "poll": 0.5}, {}),                                  # abandoned at once (C20-D1)
+    ("poll-backoff", {"mode": "poll", "poll": 0.5}, {"cancellation_backoff": 1.0}),       # exits within the backoff
+    ("poll-timeout", {"mode": "poll", "poll": 2.0}, {"cancellation_timeout": 0.5}),       # exits on the cancellation
+    ("unwind", {"mode": "unwind", "unwind": 0.5}, {"cancellation_timeout": 1.0}),         # needs 0.5 s of the 1 s it is given
+    ("unwind-late", {"mode": "unwind", "unwind": 2.0}, {"cancellation_timeout": 1.0}),    # given up after 1 s (C20-D1), ends at 2 s
 ]
 TRIGGERS = ["flag", "flag", "cancel", "cancel", "watch_error_kex", "watch_error_crd", "watch_error_peering", "poison",
             "memo_poison", "discovery_500_initial", "discovery_500_rescan", "pinger_500", "startup_fail", "cleanup_fail",
             "flag", "watch_error_kex", "crd_gone", "login_fail", "worker_fail_depletion", "early_stop_peering",
             # two triggers in one history, and the stop at the very first moment
             "failure_then_stop", "failure_then_stop", "two_failures", "flag_then_cancel", "respawn_daemon", "cancel_in_spawn",
-            "worker_fail_gone"]
+            "worker_fail_gone", "login_fail_at_stop"]
 PHASES = ["startup", "startup_end", "discovery", "spawning", "steady", "inflight"]
 
 
@@ -962,6 +1141,8 @@ def gen_history(rng: Any, i: int, force: dict | None = None) -> dict:
     if trigger == "login_fail":
         # with peering: before /repo 83aec44 the dead vault blocked the withdrawal PATCH for ever (finding C20-F7)
         peering = force.get("peering", rng.random() < 0.3)
+    if trigger == "login_fail_at_stop":
+        peering = force.get("peering", rng.random() < 0.6)
     handlers: list[dict] = []
     shape: dict[str, Any] = {"trigger": trigger, "peering": peering}
     # startup handlers
@@ -1003,15 +1184,25 @@ def gen_history(rng: Any, i: int, force: dict | None = None) -> dict:
         dm.append(name)
         handlers.append({"kind": "daemon", "id": "d0", "daemon": dict(d), "opts": dict(opts)})
     shape["daemons"] = sorted(dm)
+    SPECIAL = ("worker_fail_depletion", "respawn_daemon", "worker_fail_gone", "crd_gone", "cancel_in_spawn", "login_fail",
+               "login_fail_at_stop")
+    # a timer (same machinery as daemons: `_runner`, exit stoppers — but no cancellation_timeout can be configured for it:
+    # an invocation in flight at the stop is always given up)
+    has_timer = trigger not in SPECIAL and rng.random() < 0.25
+    if has_timer:
+        handlers.append({"kind": "timer", "id": "t0", "script": [], "default": ["sleep", rng.choice([0.25, 0.75]), "ok"],
+                         "opts": {"interval": 1.0}})
+    shape["timer"] = has_timer
     dur = rng.choice([0.5, 1.5, 1.5, 3.0]) if trigger not in ("worker_fail_depletion", "respawn_daemon", "worker_fail_gone") \
         else rng.choice([1.0, 1.5])
     handlers.append({"kind": "create", "id": "c", "script": [], "default": "ok"})
     handlers.append({"kind": "update", "id": "u", "script": [], "default": ["sleep", dur, "ok"]})
-    if trigger == "login_fail":
+    if trigger in ("login_fail", "login_fail_at_stop"):
         # the credentials are invalidated later on (HTTP 401); the re-login fails for good: the core task dies
         handlers.append({"kind": "login", "id": "lg", "script": ["ok", "perm"], "default": "perm"})
     n_obj = rng.choice([0, 1, 1, 2, 3]) if trigger not in ("poison", "memo_poison", "login_fail", "worker_fail_depletion",
-                                                              "respawn_daemon", "flag_then_cancel", "worker_fail_gone") \
+                                                              "respawn_daemon", "flag_then_cancel", "worker_fail_gone",
+                                                              "login_fail_at_stop") \
         else rng.choice([1, 2])
     objects = [{"name": f"o{k}"} for k in range(n_obj)]
     # the trigger's moment
@@ -1022,7 +1213,7 @@ def gen_history(rng: Any, i: int, force: dict | None = None) -> dict:
     if trigger not in ("flag", "cancel", "startup_fail", "discovery_500_initial") and phase in ("startup", "startup_end", "discovery"):
         phase = rng.choice(["spawning", "steady", "inflight"])
     if trigger in ("worker_fail_depletion", "failure_then_stop", "two_failures", "flag_then_cancel", "respawn_daemon",
-                   "worker_fail_gone"):
+                   "worker_fail_gone", "login_fail_at_stop"):
         phase = "steady"
     if trigger == "cancel_in_spawn":
         phase = "startup"
@@ -1045,6 +1236,22 @@ def gen_history(rng: Any, i: int, force: dict | None = None) -> dict:
     shape["phase"] = phase
     shape["inflight"] = inflight
     sc: dict[str, Any] = {"seed": i, "handlers": handlers, "objects": objects, "peering": peering, "settings": {}}
+    # a second served kind: its watch stream is one of "the other streams" the orchestrator stops after a stream failure, with a
+    # handler in flight on it (the second G of the failure bound is consumed by a depletion, not only by the keep-alive task)
+    second = trigger in ("watch_error_kex", "watch_error_crd", "watch_error_peering", "failure_then_stop", "two_failures", "flag",
+                         "cancel", "poison", "pinger_500") and rng.random() < 0.35
+    if second:
+        handlers.append({"kind": "update", "id": "u2", "resource": "kopfwidgets", "script": [],
+                         "default": ["sleep", rng.choice([0.5, 1.5]), "ok"]})
+        sc["second_kind"] = {"objects": [{"name": "w0"}]}
+        if phase in ("steady", "inflight"):
+            ops.append([t - rng.choice([0.25, 0.5]), "edit2", "w0", 30])
+    shape["second_kind"] = second
+    # the operator starts without credentials: the login handlers run at the start (core task, behind the started flag)
+    if trigger not in ("login_fail", "login_fail_at_stop", "cancel_in_spawn") and rng.random() < 0.15:
+        handlers.append({"kind": "login", "id": "lg0", "script": [], "default": "ok"})
+        sc["empty_vault"] = True
+    shape["empty_vault"] = bool(sc.get("empty_vault"))
     if rng.random() < 0.3 and trigger not in ("worker_fail_depletion", "respawn_daemon", "worker_fail_gone"):
         sc["settings"]["queueing.exit_timeout"] = rng.choice([0.5, 1.0, 4.0])
     if trigger == "flag":
@@ -1123,9 +1330,28 @@ def gen_history(rng: Any, i: int, force: dict | None = None) -> dict:
         ops.append([t, "crd_delete"])
         ops.append([t + 3.0, "crd_create"])
         shape["inflight"] = True
+    elif trigger == "login_fail" and rng.random() < 0.3:
+        # the very FIRST login fails for good: no credentials at the start, the core task dies right behind the started flag
+        sc["empty_vault"] = True
+        for h in handlers:
+            if h["kind"] == "login":
+                h["script"], h["default"] = ["perm"], "perm"
+        shape["phase"] = phase = "startup_end"
+        shape["empty_vault"] = True
+        t = s_dur
     elif trigger == "login_fail":
         ops.append([t, "unauthorized"])
         ops.append([t + rng.choice([1 / TPS, 0.5]), "edit", objects[0]["name"], 20])
+    elif trigger == "login_fail_at_stop":
+        # the core task dies DURING the shutdown: the stop flag is set and the credentials are revoked at the same moment; the first
+        # request of the shutdown (the peering withdrawal, or the patch of a handler in flight) gets HTTP 401, the re-login fails
+        # for good. The stop-flag checker — which escalates a dead core task at any other time — is gone by then: the only path left
+        # is startup_cleanup_activities' `reraise(core_done)` after the cleanup activity
+        ops[:] = [o for o in ops if o[1] != "edit"]
+        ops.append([t - 0.25, "edit", objects[0]["name"], 10])
+        ops.append([t, "unauthorized"])
+        ops.append([t, "flag"])
+        shape["inflight"] = True
     elif trigger == "worker_fail_depletion":
         # a handler is in flight, a poisoned event waits behind it; the stop comes; the worker fails during the depletion
         stop = rng.choice(["flag", "flag", "cancel"])
@@ -1139,7 +1365,7 @@ def gen_history(rng: Any, i: int, force: dict | None = None) -> dict:
     elif trigger == "cleanup_fail":
         ops.append([t, rng.choice(["flag", "flag", "cancel"])])
     # when is the trigger felt at the latest? (keep-alive period <= 60 s; retries of a failing request)
-    felt = {"failure_then_stop": t + 0.25, "two_failures": t + 0.25, "flag_then_cancel": t + 0.5, "cancel_in_spawn": 0.0,
+    felt = {"login_fail_at_stop": t, "failure_then_stop": t + 0.25, "two_failures": t + 0.25, "flag_then_cancel": t + 0.5, "cancel_in_spawn": 0.0,
             "worker_fail_gone": t + 2.0, "login_fail": t + 1.0, "pinger_500": t + 60.0 + 8.0, "discovery_500_rescan": t + 8.0, "discovery_500_initial": s_dur + 8.0,
             "startup_fail": s_dur + 1.0, "memo_poison": t + 1.0}.get(trigger, t)
     b = bound_s(sc)
@@ -1222,9 +1448,9 @@ def _evaluate(ctx: Ctx, histories: list[dict], tie: bool = True) -> None:
     for k, (sc, obs) in enumerate(zip(histories, obs_list)):
         ctx.traces += 1
         bad, facts = oracle(sc, obs)
-        if facts.get("noncooperative") or facts.get("outside_model"):
+        if facts.get("noncooperative"):
             noncoop.add(k)
-            ctx.count("tie_skipped", facts.get("outside_model") or "C20-F7")
+            ctx.count("tie_skipped", "C20-F7")
         shape = dict(sc.get("shape") or {"corpus": sc.get("name")})
         shape["outcome"] = (obs.get("returned") or {}).get("how")
         ctx.case(key=shape, nontrivial=facts.get("trigger") is not None,
@@ -1236,6 +1462,9 @@ def _evaluate(ctx: Ctx, histories: list[dict], tie: bool = True) -> None:
         for d in (sc.get("shape") or {}).get("daemons", []):
             ctx.count("daemon_mode", d)
         ctx.count("peering", bool(sc.get("peering")))
+        for extra in ("timer", "second_kind", "empty_vault"):
+            ctx.count(extra, bool((sc.get("shape") or {}).get(extra)))
+        ctx.count("daemons_given_up_by_their_stopper", str(len(given_up(obs["log"]))))
         for what, sig in bad:
             ctx.oracle_fail(what, {"history": sc, "facts": facts, "returned": obs.get("returned"),
                                    "log_tail": obs["log"][-40:]}, sig)
@@ -1247,16 +1476,22 @@ def _evaluate(ctx: Ctx, histories: list[dict], tie: bool = True) -> None:
     xf = ctx.extra.get("extracted_facts") or {}
     core_watched = bool(xf.get("rootTaskAwaitsCore") and xf.get("coreErrorsAfterCleanup"))
     ctx.extra["model_variant"] = ("headCfg (fixed := true: failed ensemble task -> orchestrator; coreWatched := "
-                                  f"{str(core_watched).lower()}: " + ("a root task awaits the core tasks)" if core_watched else
-                                                                      "nobody awaits the core task, finding C20-F6)"))
+                                  f"{str(core_watched).lower()}: " + ("a root task awaits the core tasks" if core_watched else
+                                                                      "nobody awaits the core task, finding C20-F6")
+                                  + "; orchShielded / spawnSwept / stopSwept / deplEscalates := "
+                                  + " / ".join(str(bool(xf.get(k))).lower() for k in
+                                               ("orchestratorShieldsStop", "spawnTasksSweepsOnCancel", "runTasksSweepsOnCancel",
+                                                "watcherRechecksWorkerError")) + ")")
     swap = bool(ctx.extra.get("core_awaited_by_stop_flag_checker"))
     orch_shielded = bool(xf.get("orchestratorShieldsStop"))
-    # non-cooperative runs (open finding C20-F7: the operator never returns) are outside `ReachC`: oracle only
+    # non-cooperative runs (the signature of C20-F7, fixed by 83aec44: the operator never returns) are outside `ReachC`:
+    # oracle only; none on the current tree
     if noncoop:
-        pass
         histories = [sc for k, sc in enumerate(histories) if k not in noncoop]
         obs_list = [o for k, o in enumerate(obs_list) if k not in noncoop]
-    reqs = [["C20.trace", model_cfg(sc, fixed, core_watched, orch_shielded), abstract(obs, sc, swap)]
+    reqs = [["C20.trace", model_cfg(sc, fixed, core_watched, orch_shielded, bool(xf.get("spawnTasksSweepsOnCancel")),
+                                    bool(xf.get("runTasksSweepsOnCancel")), bool(xf.get("watcherRechecksWorkerError"))),
+             abstract(obs, sc, swap)]
             for sc, obs in zip(histories, obs_list)]
     try:
         outs = ctx.driver.ask(reqs)
@@ -1277,8 +1512,12 @@ def _evaluate(ctx: Ctx, histories: list[dict], tie: bool = True) -> None:
                           "context": req[2][max(0, i - 12): i + 3]})
             continue
         if m.get("truncated"):
-            # the run left the model at `orchAbandon` (finding C20-F8, reported by the oracle): compared up to that label only
-            ctx.count("tie_truncated_at", "orchAbandon (C20-F8)")
+            # (only in a tree WITHOUT one of the repairs ab6fb15 / d6da86b / 883284c, whose historical model variant the extracted
+            #  facts select — the tie theorems fail then as well:) the run left the model at `orchAbandon` / `spawnCancel` /
+            #  `stopCancel` (C20-F8 / F10 / F11, reported by the oracle): compared up to that label only
+            left = [l[1] for l in req[2] if l[1] in ("orchAbandon", "spawnCancel", "stopCancel")]
+            ctx.count("tie_truncated_at", {"orchAbandon": "orchAbandon (C20-F8)", "spawnCancel": "spawnCancel (C20-F10)",
+                                           "stopCancel": "stopCancel (C20-F11)"}.get(left[0] if left else "", "?"))
             continue
         fin = m["final"]
         ret = obs.get("returned")
